@@ -43,8 +43,14 @@ try:
     for dst, _ in placed:
         os.remove(dst)
     rc, out = sh("git apply %s" % os.path.join(os.path.abspath(src), "patch.diff"), wt)
+    rebased = False
     if rc != 0:
-        print("patch does not apply:", out); sys.exit(2)
+        rc, out = sh("git apply -3 %s" % os.path.join(os.path.abspath(src), "patch.diff"), wt)
+        if rc != 0:
+            print(json.dumps({"confirmed": False, "quick_checks": {}, "error": "patch does not apply: " + out})); sys.exit(2)
+        rebased = True
+        _, newdiff = sh("git diff HEAD", wt)
+        result["rebased_patch"] = newdiff
     rc_build, _ = sh("go build ./... && go build -tags verif ./...", wt)
     rc_suite, out_suite = sh("go test -vet=off -count=1 ./...", wt)
     placed.clear(); place()
@@ -63,13 +69,15 @@ finally:
     sh("git -C /repo worktree remove --force %s" % wt)
 confirmed = result.get("builds") and result.get("suite_passes_with_change") and result.get("demo_passes_without_change") and result.get("demo_fails_with_change")
 result["confirmed"] = bool(confirmed)
-print(json.dumps(result, indent=1))
+print(json.dumps({k: v for k, v in result.items() if k != "rebased_patch"}, indent=1))
 if confirmed:
     dst = os.path.join("/verif/seeded", sid)
     os.makedirs(dst, exist_ok=True)
     for f in ["patch.diff", "notes.md"] + [os.path.basename(d) for d in demos]:
         if os.path.exists(os.path.join(src, f)):
             shutil.copy(os.path.join(src, f), os.path.join(dst, f))
+    if result.get("rebased_patch"):
+        open(os.path.join(dst, "patch.diff"), "w").write(result["rebased_patch"])
     notes = open(os.path.join(src, "notes.md")).read() if os.path.exists(os.path.join(src, "notes.md")) else ""
     meta = {"id": sid, "breaks_property": prop, "needs_to_manifest": "see notes.md (written by the seeding agent)",
             "base_commit": subprocess.run("git -C /repo rev-parse --short HEAD", shell=True, stdout=subprocess.PIPE, text=True).stdout.strip(),
